@@ -27,6 +27,9 @@ WITNESSES = {
  "C03-django-captured-over-data": prog(False, [("c0", [comp("c1", [W("g", lit("between"), [fill("s1", [O("g")])])])], []),
                                               ("c1", [slot("s1", [])], [["g", {"const": sval("inner")}]])],
      [comp("c0"), T("|"), comp("c1", [W("g", lit("between"), [fill("s1", [O("g")])])])]),
+ "C03-isolated-captured-under-enclosing-data": prog(True, [("c1", [comp("c0", [F("b", var("one"), [fill("s1", [T("["), O("b"), T("]")])])])], [["b", {"const": sval("outer-data")}], ["one", {"const": {"l": [sval("loop")]}}]]),
+                                                          ("c0", [slot("s1", [])], [])],
+     [comp("c1")]),
  "C01-dynamic-deferred": prog(True, [("c0", [W("v", lit("V"), [comp("c1", [fill("s1", [T("["), O("v"), T("]")])], dyn=True)])], []),
                                      ("c1", [slot("s1", [])], [])],
      [comp("c0")]),
